@@ -19,6 +19,7 @@ import (
 	"strings"
 	"sync"
 	"sync/atomic"
+	"time"
 
 	el "github.com/hashicorp/eventlogger"
 	"verifharness/hc"
@@ -304,7 +305,58 @@ type outcome struct {
 	panics []string
 }
 
-func runCase(c Case, readers bool) (out outcome) {
+// a history that does not finish within the watchdog: the Broker is abandoned (its goroutines stay blocked), the goroutine
+// dump is the evidence
+type hang struct {
+	Case Case   `json:"case"`
+	Dump string `json:"goroutine_dump"`
+	Mode string `json:"mode"`
+}
+
+var watchdog = 8 * time.Second
+var hangs []hang
+
+func filterDump(d string) string {
+	var keep []string
+	for _, g := range strings.Split(d, "\n\n") {
+		if strings.Contains(g, "hashicorp/eventlogger") && (strings.Contains(g, "sync.") || strings.Contains(g, "chan ") || strings.Contains(g, "select")) {
+			if len(g) > 2500 {
+				g = g[:2500] + "\n\t..."
+			}
+			keep = append(keep, g)
+		}
+	}
+	if len(keep) > 10 {
+		keep = keep[:10]
+	}
+	return strings.Join(keep, "\n\n")
+}
+
+// runCase runs one history under the watchdog; ok = false: it hung (recorded in hangs)
+func runCase(c Case, readers bool) (out outcome, ok bool) {
+	done := make(chan outcome, 1)
+	go func() { done <- runCaseRaw(c, readers) }()
+	select {
+	case o := <-done:
+		return o, true
+	case <-time.After(watchdog):
+		buf := make([]byte, 4<<20)
+		n := runtime.Stack(buf, true)
+		mode := "cases"
+		if readers {
+			mode = "race"
+		}
+		hangs = append(hangs, hang{Case: c, Dump: filterDump(string(buf[:n])), Mode: mode})
+		return outcome{}, false
+	}
+}
+
+func writeHangs(out string) {
+	js, _ := json.MarshalIndent(hangs, "", " ")
+	os.WriteFile(out+"/hangs.json", js, 0o644)
+}
+
+func runCaseRaw(c Case, readers bool) (out outcome) {
 	b, _ := el.NewBroker()
 	w := &world{b: b, nthr: int64(len(c.Threads))}
 	maxBar := 0
@@ -624,9 +676,13 @@ type emitter struct {
 func (e *emitter) emit(c Case) {
 	e.next++
 	c.ID = e.next
-	o := runCase(c, false)
+	o, finished := runCase(c, false)
 	js, _ := json.Marshal(c)
 	fmt.Fprintf(e.side, "%s\n", js)
+	if !finished {
+		e.stats["hung"]++
+		return
+	}
 	for _, p := range o.panics {
 		e.panics = append(e.panics, fmt.Sprintf("case %d: panic: %s", c.ID, p))
 	}
@@ -672,6 +728,7 @@ func (e *emitter) emit(c Case) {
 func main() {
 	out := flag.String("out", ".", "output directory")
 	mode := flag.String("mode", "cases", "cases: print case files; race: long histories with readers, no case files")
+	wd := flag.Duration("watchdog", 8*time.Second, "per-history watchdog")
 	ncases := flag.Int("cases", 150, "number of concurrent histories")
 	nfresh := flag.Int("fresh", 0, "number of fresh-type race histories (first calls for unused event types behind a barrier)")
 	maxThreads := flag.Int("threads", 8, "maximal number of registry goroutines (2..)")
@@ -682,6 +739,7 @@ func main() {
 	replay := flag.String("replay", "", "re-run the history of a replay file")
 	repeat := flag.Int("repeat", 1, "with -replay: how many times")
 	flag.Parse()
+	watchdog = *wd
 
 	r := hc.NewRand(hc.Seed())
 	if *mode == "race" {
@@ -695,9 +753,12 @@ func main() {
 			}
 			if json.Unmarshal(data, &rec) == nil && len(rec.Case.Setup) > 0 {
 				for i := 0; i < *repeat; i++ {
-					o := runCase(rec.Case, true)
+					o, _ := runCase(rec.Case, true)
 					panics += len(o.panics)
 					n++
+					if len(hangs) >= 2 {
+						break
+					}
 				}
 			}
 		} else {
@@ -708,17 +769,21 @@ func main() {
 					// Reopen / getters / setters running while event types are used for the first time
 					c = genFresh(r.Fork(), 2+r.Intn(3), 6, 1+r.Intn(2), *sends)
 				}
-				o := runCase(c, true)
+				o, _ := runCase(c, true)
 				for _, p := range o.panics {
 					fmt.Println("PANIC:", p)
 				}
 				panics += len(o.panics)
 				n++
+				if len(hangs) >= 2 {
+					break // a wedged library: every further history would cost a watchdog period
+				}
 			}
 		}
-		js, _ := json.Marshal(map[string]interface{}{"histories": n, "panics": panics, "seed": hc.Seed()})
+		js, _ := json.Marshal(map[string]interface{}{"histories": n, "panics": panics, "seed": hc.Seed(), "hangs": len(hangs)})
 		os.WriteFile(*out+"/conch_race_summary.json", js, 0o644)
-		fmt.Printf("conch(race): %d histories, %d panics\n", n, panics)
+		writeHangs(*out)
+		fmt.Printf("conch(race): %d histories, %d panics, %d hung\n", n, panics, len(hangs))
 		return
 	}
 
@@ -780,8 +845,11 @@ func main() {
 		}
 		c := genCase(r.Fork(), th, per, 1+r.Intn(3), *sends)
 		e.emit(c)
+		if len(hangs) >= 2 {
+			break
+		}
 	}
-	for i := 0; i < *nfresh; i++ {
+	for i := 0; i < *nfresh && len(hangs) < 2; i++ {
 		e.emit(genFresh(r.Fork(), 2+i%3, 3, 1, 2))
 	}
 	finish(e, *out)
@@ -793,8 +861,13 @@ const footer = "Definition M := Eval vm_compute in mismatches cases.\nPrint M.\n
 func finish(e *emitter, out string) {
 	e.cf.Close()
 	e.side.Close()
-	summary := map[string]interface{}{"stats": e.stats, "files": e.cf.Files, "cases": e.cf.Total, "distinct_nontrivial": e.nontriv,
-		"panics": e.panics, "seed": hc.Seed()}
+	writeHangs(out)
+	files := e.cf.Files
+	if files == nil {
+		files = []string{}
+	}
+	summary := map[string]interface{}{"stats": e.stats, "files": files, "cases": e.cf.Total, "distinct_nontrivial": e.nontriv,
+		"panics": e.panics, "seed": hc.Seed(), "hangs": len(hangs)}
 	js, _ := json.MarshalIndent(summary, "", " ")
 	os.WriteFile(out+"/cases_summary.json", js, 0o644)
 	fmt.Printf("conch: %d cases in %d files, %d panics\n", e.cf.Total, len(e.cf.Files), len(e.panics))
